@@ -1,10 +1,37 @@
-import Pendulum.Drv.Util
-/-! request handler for property C11 (stub until the property is built) -/
+import Pendulum.Drv.DTUtil
+import Pendulum.Model.Native
+/-! C11 requests:
+  `c11u <zref> <wall> <fold>`                                   → `ok <14 integer accessors>`
+  `c11az <zref> <wall> <fold> <zref'> <same>`                   → `ok <wall> <offset> <fold>`
+  `c11cmp <same> <zrefA> <wallA> <foldA> <zrefB> <wallB> <foldB>` → `ok <cmp> <eq>`
+  `c11sub <same> <zrefA> <wallA> <foldA> <zrefB> <wallB> <foldB>` → `ok <a - b in µs>`
+  `c11repl <zref> <wall> <fold> <wall'> <fold'>`                → `ok <wall> <offset> <fold>` -/
 namespace Pendulum.Drv.C11
-open Pendulum Pendulum.Drv
+open Pendulum Pendulum.Drv Pendulum.DTOps Pendulum.Native
 
-def handle (_zs : Zones) (ws : List String) : Option String :=
+def handle (zs : Zones) (ws : List String) : Option String :=
   match ws with
+  | ["c11u", z, w, f] => do
+    let v ← parseV zs z w f
+    let a := acc v
+    some (okInts [a.offset, a.instant, a.ordinal, a.weekday, a.isoY, a.isoW, a.isoD, a.year, a.month, a.day,
+                  a.tod, a.yday, a.utcOrdinal, a.utcTod])
+  | ["c11az", z, w, f, z', same] => do
+    let v ← parseV zs z w f
+    let t ← parseZRef zs z'
+    some (replyV (astimezone v t (same == "1")))
+  | ["c11cmp", same, za, wa, fa, zb, wb, fb] => do
+    let a ← parseV zs za wa fa
+    let b ← parseV zs zb wb fb
+    some (okInts [cmp (same == "1") a b, b2i (Native.eq (same == "1") a b)])
+  | ["c11sub", _same, za, wa, fa, zb, wb, fb] => do
+    let a ← parseV zs za wa fa
+    let b ← parseV zs zb wb fb
+    some (okInts [pendulumSub a b])
+  | ["c11repl", z, w, f, w', f'] => do
+    let v ← parseV zs z w f
+    let w' ← w'.toInt?
+    some (replyV (Native.replace v w' (f' == "1")))
   | _ => none
 
 end Pendulum.Drv.C11
